@@ -853,7 +853,21 @@ func Concurrent(d *fw.Driver, res *fw.Result, seed int64, thorough bool) error {
 		n := 6 + r.Intn(20)
 		jobs = append(jobs, job{n, r.Perm(n)})
 	}
+	// "any number of calls": one job far beyond any plausible fixed bound, released in reverse order (every
+	// handler that is still running depends on frames that arrive after the later requests)
+	big := 150
+	if thorough {
+		big = 400
+	}
+	rev := make([]int, big)
+	for i := range rev {
+		rev[i] = big - 1 - i
+	}
+	jobs = append(jobs, job{big, rev})
 	for ji, j := range jobs {
+		if res.Enough() {
+			break
+		}
 		run, closer, cancel, err := newRunner(seed+int64(ji)*17, 2, true)
 		if err != nil {
 			return err
